@@ -253,8 +253,21 @@ def check_case(case):
                 return Verdict("fail", "etree and dom walkers disagree at token %d: etree %s, dom %s; input %s" % (i, short(ce[i] if i < len(ce) else None, 120),
                                short(cd[i] if i < len(cd) else None, 120), short(text, 160)), "walkers-disagree", nontrivial=True, classes=classes)
         else:
-            classes.append("trees-differ(C04 known finding)")
+            # the two backends built different trees for the same document, so the two streams differ too.  Excused only by the recorded
+            # minidom limitations of C04 (exact model); any other divergence means the walkers do not emit the same stream "for the
+            # same document", whichever component is to blame
+            modelled = obs.clarkify(obs.minidom_colon_model(we))
+            if modelled == obs.clarkify(wd) or _only_doctype_name_differs(obs.clarkify(we), obs.clarkify(wd)):
+                classes.append("trees-differ(C04 known finding)")
+            else:
+                d = obs.first_diff(obs.clarkify(we), obs.clarkify(wd))
+                return Verdict("fail", "the etree and dom backends hold different trees for the same document, so their walkers emit different streams: record %d: etree %s, dom %s; input %s"
+                               % (d[0], short(d[1], 120), short(d[2], 120), short(text, 160)), "backends-differ", nontrivial=True, classes=classes)
     return Verdict("pass", nontrivial=nontrivial, sig=sig64(shape, doc), classes=classes)
+
+
+def _only_doctype_name_differs(a, b):
+    return len(a) == len(b) and all(x == y or (x[1] == "doctype" and y[1] == "doctype") for x, y in zip(a, b))
 
 
 def _void_with_children(fl):
